@@ -24,7 +24,7 @@ LinkEdits == {"name", "mat_path", "prod_path", "mat_digest", "prod_digest", "mat
 LayoutEdits == {"readme", "expires_plus1", "expires_minus1", "expires_plus_year", "expires_plus_day", "pubkeys_case", "step_name", "step_threshold", "step_threshold_zero",
                 "pubkeys_add", "pubkeys_remove", "pubkeys_swap", "step_command", "rule_keyword", "rule_pattern",
                 "rule_add", "rule_remove", "rule_swap", "match_src", "match_dst", "match_drop_src", "match_with",
-                "match_from", "insp_name", "insp_run", "insp_rule", "keys_add", "keys_remove",
+                "match_from", "match_with_dstonly", "match_with_srconly", "match_with_bare", "insp_name", "insp_run", "insp_rule", "keys_add", "keys_remove",
                 "key_entry_scheme", "key_entry_public", "key_entry_halgs", "key_entry_type", "steps_swap",
                 "inspect_swap", "inspect_remove"}
 
